@@ -217,6 +217,31 @@ example : ∃ s, run { ids := fun i => i, kinds := fun _ => .iq, derived := true
     s.hlog = [0] ∧ (s.rpc 0).held = some 1 ∧ s.spc = .offering 1 2 := by
   simp [run, step, init, lookup, upd, nsMatch, RPc.held]
 
+/-! ### the serve loop waits for the close, whatever happens to the caller's context (round F, seeded C06-22) -/
+
+/-- in every reachable state: while a caller holds a response it has not closed, the serve loop is
+waiting for exactly that close and reads no further stanza -/
+theorem C06_serve_waits_while_response_open {cfg s} (hr : Reach cfg s) {i k : Nat}
+    (h : (s.rpc i).heldOpen = some k) : s.spc = .waitClose i k ∧ ∀ st, step cfg s (.read st) = none := by
+  have hw := (inv_reach hr).2.holdWait i k h
+  exact ⟨hw, fun st => by simp [step, hw]⟩
+
+/-- … and the end of the caller's context (cancellation, deadline) after the call has returned
+changes nothing about that: the response stays the caller's, the serve loop keeps waiting; only
+the close (or a read error inside the response) lets it go on -/
+theorem C06_cancel_after_return_keeps_serve_waiting {cfg s} (hr : Reach cfg s) {i k : Nat}
+    (h : (s.rpc i).heldOpen = some k) :
+    ∃ s', step cfg s (.cancel i) = some s' ∧ (s'.rpc i).heldOpen = some k ∧ s'.spc = .waitClose i k ∧
+      ∀ st, step cfg s' (.read st) = none := by
+  refine ⟨{ s with cancelled := upd s.cancelled i true }, rfl, h, ?_⟩
+  have hr' : Reach cfg { s with cancelled := upd s.cancelled i true } := Reach.step hr (a := .cancel i) rfl
+  exact C06_serve_waits_while_response_open hr' (i := i) (k := k) h
+
+example : ∃ s, run { ids := fun i => i, kinds := fun _ => .iq, derived := true } init
+    [.call 0, .sendOk 0, .read ⟨.iq, 0, true, .stream, false⟩, .recv 0, .dereg 0, .cancel 0] = some s ∧
+    (s.rpc 0).heldOpen = some 0 ∧ s.spc = .waitClose 0 0 := by
+  simp [run, step, init, lookup, upd, nsMatch, RPc.heldOpen]
+
 /-! ### progress -/
 
 /-- a waiting requester whose context is cancelled, or to which its reply is on offer, can step -/
@@ -984,6 +1009,22 @@ theorem C06_key_wire_id_is_registered_id (f₁ f₂ : Nat) (hf : f₁ ≠ 0) (at
 
 example : send {} 7 8 [⟨.foreign, .id, 2⟩, ⟨.none, .id, 0⟩, ⟨.none, .type, 1⟩] =
     (7, [⟨.foreign, .id, 2⟩, ⟨.none, .id, 7⟩, ⟨.none, .type, 1⟩]) := by decide
+
+/-- round F (the encoder as repaired by "the stanza encoder takes any attribute with the local name
+id … for the stanza attribute, whatever its namespace"): an attribute that merely shares the local
+name — `x:id`, `xmlns:id`, empty or not — reaches the wire untouched, and never counts as the
+stanza's id (a request whose only id-named attribute is qualified still gets a generated id) -/
+theorem C06_key_encoder_passes_qualified (f₂ : Nat) (attrs : List Attr) (a : Attr)
+    (ha : a ∈ attrs) (hq : a.space ≠ .none) : a ∈ encode f₂ attrs := by
+  have hk : a ∈ attrs.filter (fun a => !(a.space = .none && a.loc = .id && a.val = 0)) := by
+    simp [List.mem_filter, ha, hq]
+  unfold encode
+  simp only []
+  split
+  · exact hk
+  · exact List.mem_append_left _ hk
+
+example : encode 8 [⟨.foreign, .id, 0⟩, ⟨.none, .id, 0⟩] = [⟨.foreign, .id, 0⟩, ⟨.none, .id, 8⟩] := by decide
 
 /-- a call never waits under the empty id -/
 theorem C06_key_registered_id_nonempty (cfg : CorrKey.Cfg) (f₁ : Nat) (hf : f₁ ≠ 0) (attrs : List Attr) :
